@@ -1,0 +1,18 @@
+//! Verification hooks (compiled only with `--cfg cicada_verif`).
+//! Re-exports otherwise crate-private items so that an external harness
+//! can drive individual stages of the shell. Adds no behaviour.
+pub mod builtins { pub use crate::builtins::*; }
+pub mod calculator { pub use crate::calculator::*; }
+pub mod completers { pub use crate::completers::*; }
+pub mod core { pub use crate::core::*; }
+pub mod execute { pub use crate::execute::*; }
+pub mod highlight { pub use crate::highlight::*; }
+pub mod history { pub use crate::history::*; }
+pub mod jobc { pub use crate::jobc::*; }
+pub mod libs { pub use crate::libs::*; }
+pub mod parsers { pub use crate::parsers::*; }
+pub mod scripting { pub use crate::scripting::*; }
+pub mod shell { pub use crate::shell::*; }
+pub mod signals { pub use crate::signals::*; }
+pub mod tools { pub use crate::tools::*; }
+pub mod types { pub use crate::types::*; }
